@@ -240,8 +240,9 @@ func sourceTables(qc *QueryCatalog, node ast.Node) ([]*Table, error) {
 			return ok
 		})
 	case *ast.UpdateStmt:
+		// the updated relation comes first: that is the order in which RETURNING * lists the columns
 		list = &ast.List{
-			Items: append(n.FromClause.Items, n.Relation),
+			Items: append([]ast.Node{n.Relation}, n.FromClause.Items...),
 		}
 	default:
 		return nil, fmt.Errorf("sourceTables: unsupported node type: %T", n)
